@@ -309,7 +309,7 @@ Definition graphnode_of (nm : name) (inner : ngraph) (hin hout : history) : node
                                      else []
                         end
                     end) cur_in in
-  mk_node nm cur_in cur_out (length cur_out) [] hasdef defval KGraph 1%positive.
+  mk_node nm cur_in cur_out (length cur_out) [] hasdef defval KGraph (if existsb is_interrupt inodes then 2%positive else 1%positive).
 
 (* input_spec._collect_bound_values: bindings of nested graphs, under the wrapper's current input names *)
 Definition nested_bound (nodes : list node) (subs : list (name * nsub)) : dict val :=
